@@ -581,6 +581,7 @@ impl World {
             let epoch = consensus.next_epoch_ext(&parent, &snap.borrow_as_data_loader()).unwrap().epoch();
             for u in self.stash.iter().rev() {
                 if uncles.len() < 2
+                    && !uncles.iter().any(|x: &ckb_types::core::UncleBlockView| x.hash() == u.hash())
                     && size + 300 * (uncles.len() + 1) < max_bytes
                     && u.number() < number
                     && snap.get_block_number(&u.hash()).is_none()
@@ -593,6 +594,11 @@ impl World {
                     uncles.push(u.as_uncle());
                 }
             }
+        }
+        // sometimes the block proposes nothing itself: what its uncles propose then enters the window through them alone
+        if !proposals.is_empty() && uncles.iter().any(|u| !u.data().proposals().is_empty()) && rng.chance(1, 2) {
+            proposals.clear();
+            self.stat("blocks_proposing_only_through_their_uncles");
         }
         let delta = *rng.pick(&[1u64, 7, 300, 2_000, 9_000]);
         let plan = BlockPlan { proposals, txs: commit, uncles, ts_delta: delta, nonce: self.blocks.len() as u128 + 1 };
